@@ -22,7 +22,7 @@ class Module:
         shutil.copy(os.path.join(core.REPO, "go.sum"), os.path.join(root, "go.sum"))
         src = open(os.path.join(core.VERIF, "tools", "probe", "fx.go.txt")).read()
         self.thin = open(os.path.join(core.VERIF, "tools", "probe", "fxthin.go.txt")).read()
-        for path, name in ((gen.FX, "fx"), (gen.FX2, "pkg"), ("probe/exp1/os", "os"), ("probe/deep/fx", "fx"), ("probe/x-y/v2", "v2"), ("probe/a.b/fx", "fx")):
+        for path, name in ((gen.FX, "fx"), (gen.FX2, "pkg"), ("probe/exp1/os", "os"), ("probe/deep/fx", "fx"), ("probe/x-y/v2", "v2"), ("probe/a.b/fx", "fx"), ("probe/gopkg/yaml.v3", "yaml")):
             d = os.path.join(root, path[len("probe/"):])
             os.makedirs(d, exist_ok=True)
             text = src if path == gen.FX else self.thin
